@@ -1,5 +1,5 @@
 """C04 split() partitions the input and agrees with parse(); pieces are single statements - E1."""
-from vlib import core, e1, oracles
+from vlib import core, e1, oracles, spaces
 from checks import _e1parse
 
 
@@ -38,7 +38,8 @@ def _evaluate(text, frags, space, acc, state):
 
 
 def run(tier, seed):
-    sp = _e1parse.parse_spaces(tier, focus=('D7', 'D4'))
+    sp = _e1parse.parse_spaces(tier, focus=('D4',) if tier == 'quick' else ('D4', 'D7'))
+    sp.append((f'SPL<={5 if tier == "quick" else 6} blank', spaces.SPL, 5 if tier == 'quick' else 6, ' '))
     merged, sizes = e1.run(sp, _evaluate, seed, bits=27 if tier == 'thorough' else 23, setup=_setup)
     cov = {
         'evaluations': merged['n'], 'distinct_nontrivial': merged['distinct'],
